@@ -66,6 +66,12 @@ func AmountToString(m int64) (string, error) {
 
 // StringToAmount converts s(float, in Mass) to amount(in Maxwell)
 func StringToAmount(s string) (massutil.Amount, error) {
+	// only plain unsigned decimal numerals are accepted
+	for i := 0; i < len(s); i++ {
+		if (s[i] < '0' || s[i] > '9') && s[i] != '.' {
+			return massutil.ZeroAmount(), fmt.Errorf("illegal number format")
+		}
+	}
 	s1 := strings.Split(s, ".")
 	if len(s1) > 2 {
 		return massutil.ZeroAmount(), fmt.Errorf("illegal number format")
